@@ -262,6 +262,38 @@ def run(ctx):
             violations.append({"signature": "depth-uniformity:" + bad[0],
                                "what": "rules %r on %r: at the top level %r, below %s %r" % (rules, val, outs['top'], bad[0], outs[bad[0]]),
                                "replay": {"rules": common.jval(rules), "value": common.jval(val), "outcomes": {k: repr(x) for k, x in outs.items()}}})
+    # a subclass's extensions in the rule set for unknown fields given as the validator's OPTION (constructor and setter):
+    # available to the subclass, rejected by the base class and by a sibling
+    for i in range(20 if not thorough else 200):
+        tag = "au%d" % i
+        Sub, Other = make_subclass(tag), make_subclass("auo%d" % i)
+        kind = rng.choice(['rule', 'type', 'coercer', 'check_with'])
+        rules = extension_rules(tag, kind)
+        for how in ("constructor", "setter"):
+            def build(cls):
+                if how == "constructor":
+                    return cls({}, allow_unknown=copy.deepcopy(rules))
+                v = cls({})
+                v.allow_unknown = copy.deepcopy(rules)
+                return v
+            cases += 1
+            dist["allow_unknown-option_" + how] += 1
+            try:
+                v = build(Sub)
+                v.validate({'u': 3})
+            except Exception as e:
+                violations.append({"signature": "availability:%s" % kind, "what": "the subclass's own %s as allow_unknown option (%s): %r" % (kind, how, e),
+                                   "replay": {"rules": common.jval(rules), "how": how}})
+            for cls, who in ((cerberus.Validator, "base Validator"), (Other, "a sibling subclass")):
+                try:
+                    build(cls)
+                    violations.append({"signature": "isolation:%s" % kind, "what": "%s accepts a %s of another subclass as allow_unknown option (%s)" % (who, kind, how),
+                                       "replay": {"rules": common.jval(rules), "how": how}})
+                except cerberus.SchemaError:
+                    pass
+                except Exception as e:
+                    violations.append({"signature": "isolation-raise:%s" % type(e).__name__, "what": "%s: %r instead of SchemaError (allow_unknown option, %s)" % (who, e, how),
+                                       "replay": {"rules": common.jval(rules), "how": how}})
     # siblings (and a grandchild) that define a rule of the SAME name with different argument schemas: each class
     # checks constraints against its own declaration, whatever was defined or used before
     def mk(name, parent, doc):
